@@ -227,9 +227,17 @@ func oracleTimes(op string, o *Obs) string {
 
 func init() {
 	opTable["timehist"] = func(t []string) *Obs {
-		ms := int64(atoi(t[1]))
-		// sub-millisecond part of the start time, derived from the op so that it replays
+		msText, nsText := t[1], ""
+		if k := strings.IndexByte(t[1], '+'); k > 0 {
+			msText, nsText = t[1][:k], t[1][k+1:]
+		}
+		ms := int64(atoi(msText))
+		// sub-millisecond part of the start time, derived from the op so that it replays (or given
+		// explicitly as <ms>+<ns>)
 		ns := (ms%1000003 + 1000003) % 1000000
+		if nsText != "" {
+			ns = int64(atoi(nsText))
+		}
 		start := time.Unix(0, ms*int64(time.Millisecond)+ns).In(zones[atoi(t[2])%len(zones)])
 		h := handler.New(start, slog.LevelInfo)
 		var parts []string
@@ -257,6 +265,28 @@ func init() {
 			}
 		}
 	}
+	// the last fraction of a millisecond of a constellation week: a start time that is rounded instead
+	// of truncated lands in the next week
+	lastInstant := func(c *Ctx, emit func(class, op string)) {
+		r := c.Rng
+		for i := 0; i < c.N(24, 120); i++ {
+			T := startTimes(c, 1)[0]
+			ci := r.Intn(4)
+			we := trueWeekStartOf(constels[ci], T).Add(7 * 24 * time.Hour)
+			ns := []int{999999, 999000, 600000, 500000, 499999, 1}[r.Intn(6)]
+			start := we.Add(-time.Millisecond)
+			// one or two observations of that constellation late in the week that is about to end
+			var items []histItem
+			u := start.Add(-time.Duration(1+r.Intn(3600000)) * time.Millisecond)
+			items = append(items, histItem{c: ci, hi: r.Intn(2), u: u, ts: tsOf(constels[ci], u)})
+			u2 := u.Add(time.Duration(r.Intn(500)) * time.Millisecond)
+			items = append(items, histItem{c: ci, hi: r.Intn(2), u: u2, ts: tsOf(constels[ci], u2)})
+			op := histOp(start, r.Intn(len(zones)), items)
+			f := strings.Fields(op)
+			f[1] = fmt.Sprintf("%s+%d", f[1], ns)
+			emit("start-in-last-instant-of-week", strings.Join(f, " "))
+		}
+	}
 	nontrivial := func(op string, o *Obs) bool { return len(strings.Fields(op)) > 4 }
 	props["C06"] = &Prop{
 		Rule: "op timehist <T ms> <zone> <true instant/constellation:frame>…: handler.New(T in a random zone, with a sub-ms part) then GetMessage on synthetic CRC-valid " +
@@ -266,8 +296,8 @@ func init() {
 		Gen: gen(false), Oracle: oracleTimes, NonTrivial: nontrivial,
 	}
 	props["C17"] = &Prop{
-		Rule: "as C06 but the first observation of each constellation lies anywhere in the constellation week of T (before, at or after T, incl. the first and last ms of the week); " +
+		Rule: "as C06 (plus start times in the last fraction of a millisecond of a constellation week) but the first observation of each constellation lies anywhere in the constellation week of T (before, at or after T, incl. the first and last ms of the week); " +
 			"non-trivial = at least two messages; distinct = distinct op line",
-		Gen: gen(true), Oracle: oracleTimes, NonTrivial: nontrivial,
+		Gen: func(c *Ctx, emit func(class, op string)) { gen(true)(c, emit); lastInstant(c, emit) }, Oracle: oracleTimes, NonTrivial: nontrivial,
 	}
 }
